@@ -20,6 +20,7 @@ unsigned g_j;                  /* an arbitrary OTHER stack slot ("for all slots"
 struct type *g_jtype; u64 g_joff; bool g_jcur; u64 g_jidx;     /* its content on entry */
 struct type *g_topt; u64 g_topoff;                             /* type of the entry slot (must not change either) */
 
+extern int g_no_error;         /* stubs/base.c */
 #define NOBJ 32                /* LEN(p->obj) */
 
 #define PRE(X) \
@@ -68,6 +69,7 @@ harness(void)
 	P.obj[in_j].iscur = in_jcur;
 	P.obj[in_j].u.idx = in_jidx;
 	g_i = in_i; g_j = in_j;
+	g_no_error = 0;        /* under --dfcc file-scope objects start nondeterministic: say explicitly that a diagnostic is allowed */
 	g_off0 = P.obj[in_i].offset; g_topt = P.obj[in_i].type;
 	g_jtype = P.obj[g_j].type; g_joff = P.obj[g_j].offset; g_jcur = P.obj[g_j].iscur; g_jidx = P.obj[g_j].u.idx;
 	CALL(PRE, POST, subobj(p, t, off));
